@@ -416,6 +416,7 @@ def install(it):
             if rw != "ALL_COMPLETED":
                 raise Unsupported("asyncio.wait(FIRST_COMPLETED) outside a block contract")
             i.suspend("asyncio.wait")
+            i.ctx.ghost.setdefault("awaited_tasks", []).extend(tasks)
             for t in tasks:
                 if isinstance(t, TaskModel):
                     t.run(i)
